@@ -63,6 +63,7 @@ func (propC01) Gen(r *Rng, tier string) *World {
 	if r.P(0.5) {
 		k.FailOp = true
 	}
+	k.RawConsts = r.P(0.3)
 	g := NewGen(r, k)
 	w := &World{Prop: "C01", Cfg: g.C}
 	w.Prog = g.Program()
